@@ -111,6 +111,7 @@ static void one(const Req &q)
     if (k == 2)
     {
         a_trajpoly3 t;
+        memset(&t, 0x41, sizeof t); // stale data of an earlier plan
         a_trajpoly3_gen(&t, ts, (a_real)q.d0[0], (a_real)q.d1[0], (a_real)q.d0[1], (a_real)q.d1[1]);
         a_trajpoly3_c0(&t, c); a_trajpoly3_c1(&t, c1); a_trajpoly3_c2(&t, c2);
         for (int i = 0; i < 3; ++i) { lib[0][i] = a_trajpoly3_pos(&t, xs[i]); lib[1][i] = a_trajpoly3_vel(&t, xs[i]); lib[2][i] = a_trajpoly3_acc(&t, xs[i]); lib[3][i] = 0; }
@@ -118,6 +119,7 @@ static void one(const Req &q)
     else if (k == 3)
     {
         a_trajpoly5 t;
+        memset(&t, 0x41, sizeof t); // stale data of an earlier plan
         a_trajpoly5_gen(&t, ts, (a_real)q.d0[0], (a_real)q.d1[0], (a_real)q.d0[1], (a_real)q.d1[1], (a_real)q.d0[2], (a_real)q.d1[2]);
         a_trajpoly5_c0(&t, c); a_trajpoly5_c1(&t, c1); a_trajpoly5_c2(&t, c2);
         for (int i = 0; i < 3; ++i) { lib[0][i] = a_trajpoly5_pos(&t, xs[i]); lib[1][i] = a_trajpoly5_vel(&t, xs[i]); lib[2][i] = a_trajpoly5_acc(&t, xs[i]); lib[3][i] = 0; }
@@ -125,6 +127,7 @@ static void one(const Req &q)
     else
     {
         a_trajpoly7 t;
+        memset(&t, 0x41, sizeof t); // stale data of an earlier plan
         a_trajpoly7_gen(&t, ts, (a_real)q.d0[0], (a_real)q.d1[0], (a_real)q.d0[1], (a_real)q.d1[1], (a_real)q.d0[2], (a_real)q.d1[2], (a_real)q.d0[3], (a_real)q.d1[3]);
         a_trajpoly7_c0(&t, c); a_trajpoly7_c1(&t, c1); a_trajpoly7_c2(&t, c2); a_trajpoly7_c3(&t, c3);
         for (int i = 0; i < 3; ++i) { lib[0][i] = a_trajpoly7_pos(&t, xs[i]); lib[1][i] = a_trajpoly7_vel(&t, xs[i]); lib[2][i] = a_trajpoly7_acc(&t, xs[i]); lib[3][i] = a_trajpoly7_jer(&t, xs[i]); }
